@@ -27,6 +27,9 @@ VECTOR_PROGS = ['x*x', 'x*x[::-1]', 'x/(1+x*x)', 'exp', 'sin(x)*x', 'exp(dot)', 
                 'x[1:]*x[:-1]', 'x**3', 'carr*x', 'x/carr', 'tile', 'sqrt(x)*x[0]', 'tan(x)*x']
 
 
+MATRIX_VALUED = ('buffer, vector broadcast into columns', 'buffer, vector broadcast into rows')
+
+
 def _flat(y):
     return np.asarray(plain(np.asarray(y, dtype=object)), dtype=object).ravel()
 
@@ -277,6 +280,20 @@ def units(tier, seed):
     for pn in ['x*x', 'exp', 'x/(1+x*x)', 'exp(dot)', 'sin(x)*x']:
         out.append(Unit('C04/%s/jacobian(utpm D3,P1)/rec=nd' % pn, 'symx.props.c04', 'h_driver',
                         {'pname': pn, 'rec': 'nd', 'driver': 'jacobian(utpm D3,P1)'}, dict(opts, float_tol=2e-4)))
+    # every buffer / indexing program of the catalogue through one driver each (all drivers in the thorough tier)
+    from .. import programs as PRG
+    vdrv = ['jacobian', 'vec_jac', 'vec_hess', 'jac_vec', 'vec_hess_vec']
+    for prog in PRG.catalogue():
+        if prog.group not in ('buffer', 'index') or 'utpmonly' in prog.tags or prog.name in sprogs or prog.name in vprogs:
+            continue
+        if len(prog.shape) != 1 or prog.name in MATRIX_VALUED:
+            continue      # (the drivers are defined for functions R^N -> R^M)
+        for j, drv in enumerate(vdrv):
+            if tier == 'quick' and j != k % len(vdrv):
+                continue
+            out.append(Unit('C04/%s/%s/rec=%s' % (prog.name, drv, recs[k % 3]), 'symx.props.c04', 'h_driver',
+                            {'pname': prog.name, 'rec': recs[k % 3], 'driver': drv}, dict(opts)))
+        k += 1
     nrand = 6 if tier == 'quick' else 150
     for i in range(nrand):
         name = 'random(seed=%d,len=%d)' % (7000 + 1000 * seed + i, 3 + i % 5)
